@@ -235,7 +235,168 @@ def nontrivial(case, obs):
     return json.dumps(case["prog"], sort_keys=True) if isinstance(obs, dict) and has_child(obs.get("forest", [])) else None
 
 
+# ---- operation-level scripts: actions created in one place and entered elsewhere (also in other threads) ------
+from lib import oplists
+
+
+def gen_scripts(rng, tier):
+    n = 60 if tier == "quick" else 1200
+    out = []
+    for i in range(n):
+        if i % 3 == 2:
+            out.append(oplists.gen_script_mt(rng, n_ops=rng.randrange(8, 24)))
+        else:
+            out.append(oplists.gen_script(rng, late_add=(i % 6 == 0), n_ops=rng.randrange(6, 24), fault=0.0))
+    return out
+
+
+def _dump_script(node):
+    from eliot.parse import WrittenAction
+    if isinstance(node, WrittenAction):
+        s = node.start_message
+        h = None if s is None else s.contents.get("f19")
+        return {"k": "A", "h": h, "status": node.status, "children": [_dump_script(c) for c in node.children]}
+    c = dict(node.contents)
+    return {"k": "M", "type": c.get("message_type"), "fields": _user_fields(c) if c.get("message_type") != "eliot:traceback" else {}}
+
+
+def _parse_script(runner, obs):
+    from eliot.parse import Parser
+    ids = oplists.dest_ids(runner_case[0])
+    log = list(runner.it.dests[ids[0]].log) if ids else []
+    dicts = []
+    for i, m in enumerate(log):
+        d = dict(m)
+        d["id"] = i
+        dicts.append(d)
+    runs = []
+    rnd = random.Random(len(dicts))
+    shuffled = list(dicts)
+    rnd.shuffle(shuffled)
+    for stream in (dicts, list(reversed(dicts)), shuffled):
+        try:
+            tasks = list(Parser.parse_stream(stream))
+        except Exception as e:
+            runs.append({"error": type(e).__name__})
+            continue
+        tasks.sort(key=lambda t: min_id(t.root()))
+        runs.append({"error": None, "complete": [t.is_complete() for t in tasks],
+                     "ids": [forests.dump_real(t.root()) for t in tasks],
+                     "rich": [_dump_script(t.root()) for t in tasks]})
+    obs["n_lines"] = len(dicts)
+    obs["runs"] = runs
+
+
+runner_case = [None]
+
+
+def impl_scripts(case):
+    runner_case[0] = case
+    return oplists.run_case(case, post=_parse_script)
+
+
+def model_expr_scripts(case):
+    ids = oplists.dest_ids(case)
+    return ("let s := %s in let ms := number_from 0 (trace_of s %d) in "
+            "(List.length ms, parse_stream ms, parse_stream (rev ms))" % (oplists.model_state_expr(case), ids[0] if ids else 1))
+
+
+def expected_script_forest(case):
+    """what the script did, from its operations alone: every message and every action belongs to the action that
+    was current in its execution context when it was logged/started (or to the action named explicitly)"""
+    stacks, nodes, roots, finished = {}, {}, [], set()
+
+    def attach(n, parent):
+        (nodes[parent]["children"] if parent is not None else roots).append(n)
+
+    def end(h, exn):
+        if h in nodes and h not in finished:
+            finished.add(h)
+            nodes[h]["status"] = "failed" if exn is not None else "succeeded"
+    for c, o in oplists.ctx_ops(case):
+        st = stacks.setdefault(c, [])
+        cur = st[-1] if st else None
+        k = o[0]
+        if k == "start":
+            n = {"k": "A", "h": o[1], "status": "started", "children": []}
+            nodes[o[1]] = n
+            attach(n, None if o[2] else cur)
+        elif k in ("enter", "ctxenter", "runenter"):
+            st.append(o[1])
+        elif k == "exit":
+            while st and st[-1] != o[1]:
+                st.pop()
+            if st:
+                st.pop()
+            end(o[1], o[2])
+        elif k in ("ctxexit", "runexit"):
+            if st:
+                st.pop()
+        elif k == "finish":
+            end(o[1], o[2])
+        elif k == "log":
+            attach({"k": "M", "type": progs.type_name(o[1]), "fields": {progs.key_name(a): progs.py_value(v) for a, v in o[2]}}, cur)
+        elif k == "actlog":
+            attach({"k": "M", "type": progs.type_name(o[2]), "fields": {progs.key_name(a): progs.py_value(v) for a, v in o[3]}}, o[1])
+        elif k == "tb":
+            attach({"k": "M", "type": "eliot:traceback", "fields": {}}, cur)
+    return roots
+
+
+def _same_script_tree(a, b, path):
+    if a["k"] != b["k"]:
+        return "%s: parsed a %s where the script made a %s" % (path, a["k"], b["k"])
+    if a["k"] == "M":
+        if a["type"] != b["type"] or json.dumps(a["fields"], sort_keys=True) != json.dumps(b["fields"], sort_keys=True):
+            return "%s: parsed message %r %r, the script logged %r %r here" % (path, a["type"], a["fields"], b["type"], b["fields"])
+        return None
+    if a["h"] != b["h"]:
+        return "%s: parsed action #%r where the script started action #%r" % (path, a["h"], b["h"])
+    if a["status"] != b["status"]:
+        return "%s: action #%r parsed with status %r, the script ended it as %r" % (path, a["h"], a["status"], b["status"])
+    if len(a["children"]) != len(b["children"]):
+        return "%s: action #%r has %d children in the parsed tree, %d were logged inside it" % (path, a["h"], len(a["children"]), len(b["children"]))
+    for i, (x, y) in enumerate(zip(a["children"], b["children"])):
+        r = _same_script_tree(x, y, "%s/%d" % (path, i))
+        if r:
+            return r
+    return None
+
+
+def oracle_scripts(case, obs):
+    bad = oracles.note_failures(obs, ("logging_raised", "foreign_exception", "hang", "thread_failed"))
+    if bad:
+        return bad
+    want = expected_script_forest(case)
+    for r in obs["runs"]:
+        if r["error"]:
+            return "parser raised %s" % r["error"]
+        if not all(r["complete"]):
+            return "a task of a finished script is reported incomplete"
+        if len(r["rich"]) != len(want):
+            return "%d tasks parsed, the script made %d top-level actions/messages" % (len(r["rich"]), len(want))
+        for i, (a, b) in enumerate(zip(r["rich"], want)):
+            d = _same_script_tree(a, b, "task%d" % i)
+            if d:
+                return d
+    return None
+
+
+def project_scripts(case, obs):
+    return {"n": obs["n_lines"],
+            "runs": [({"error": "error"} if r["error"] else {"error": None, "complete": r["complete"], "ids": r["ids"]})
+                     for r in obs["runs"][:2]]}
+
+
+def nontrivial_scripts(case, obs):
+    kinds = [o[0] for c, o in oplists.ctx_ops(case)]
+    return json.dumps(case["ops"]) if "enter" in kinds and isinstance(obs, dict) and obs.get("n_lines", 0) >= 3 else None
+
+
 FAMILIES = [
+    Family("scripts", gen_scripts, impl_scripts, model_expr_scripts, model_obs, oracle_scripts, nontrivial_scripts,
+           imports=["Model.Core", "Model.Prog", "Model.Parser", "Model.Roundtrip"], project=project_scripts,
+           describe=oplists.describe, shard=30, coq_shard=60, case_timeout=60),
     Family("roundtrip", gen, impl, model_expr, model_obs, oracle, nontrivial,
            imports=["Model.Core", "Model.Prog", "Model.Parser", "Model.Roundtrip"], project=project,
            describe=progs.describe, shrink=progs.shrink, shard=30, coq_shard=40, case_timeout=30),
